@@ -357,9 +357,16 @@ func VerifApplyOp(c *Configuration, op string) string {
 		gc.Spec.Listeners = verifListeners(f[1])
 		var err error
 		changes, problems, err = c.AddOrUpdateGlobalConfiguration(gc)
+		raw := verifListeners(f[1])
 		var names []string
+		j := 0
 		for _, l := range gc.Spec.Listeners {
-			names = append(names, l.Name)
+			// admitted listeners are a subsequence of the input: report their indices
+			for j < len(raw) && raw[j] != l {
+				j++
+			}
+			names = append(names, strconv.Itoa(j))
+			j++
 		}
 		e := 0
 		if err != nil {
